@@ -110,7 +110,7 @@ def gen_history(r):
 
 def cases(ctx):
     r = ctx.rng('histories')
-    for hno in range(ctx.size(24, 1400)):
+    for hno in range(ctx.size(24, 1800)):
         vs = gen_history(r)
         alg = ['sha1', 'sha256'][(hno + ctx.shard) % 2]
         n = len(vs) - 1
